@@ -127,6 +127,8 @@ type Conn struct {
 	closeVC    vclock // peer close -> EOF/err
 	closed     bool   // closed locally
 	peerClosed bool   // peer sent FIN
+	peerShut   bool   // the peer shut down its sending side (CloseWrite): reads end with EOF, the connection is still open
+	shut       bool   // this end shut down its sending side
 	reset      bool   // peer reset the connection
 	Capacity   int    // >0: the peer's Write parks when this end holds that many unread bytes
 	CloseErr   error  // non-nil: Close on this end closes the connection but reports this error (a TLS close notification that could not be sent)
@@ -225,11 +227,11 @@ func (c *Conn) Read(p []byte) (int, error) {
 			e.acquire(&c.closeVC)
 			return 0, c.opErr("read", syscall.ECONNRESET)
 		}
-		if c.peerClosed {
+		if c.peerClosed || c.peerShut {
 			e.acquire(&c.closeVC)
 			return 0, io.EOF
 		}
-		e.block(func() bool { return c.closed || len(c.rbuf) > 0 || c.reset || c.peerClosed }, "Read:"+c.name)
+		e.block(func() bool { return c.closed || len(c.rbuf) > 0 || c.reset || c.peerClosed || c.peerShut }, "Read:"+c.name)
 	}
 }
 
@@ -256,13 +258,13 @@ func (c *Conn) ReadOrQuiet(p []byte) (n int, quiet bool, err error) {
 			e.acquire(&c.closeVC)
 			return 0, false, c.opErr("read", syscall.ECONNRESET)
 		}
-		if c.peerClosed {
+		if c.peerClosed || c.peerShut {
 			e.acquire(&c.closeVC)
 			return 0, false, io.EOF
 		}
 		t := e.running
 		t.wantQuiet = false
-		t.blocked = func() bool { return c.closed || len(c.rbuf) > 0 || c.reset || c.peerClosed }
+		t.blocked = func() bool { return c.closed || len(c.rbuf) > 0 || c.reset || c.peerClosed || c.peerShut }
 		t.parkWhat = "Read:" + c.name
 		t.orQuiet = true
 		e.log("park Read:" + c.name)
@@ -285,7 +287,7 @@ func (c *Conn) Write(p []byte) (int, error) {
 	e.point("Write " + c.name)
 	c.WriteCalls++
 	for {
-		if c.closed {
+		if c.closed || c.shut {
 			return 0, c.opErr("write", errClosed)
 		}
 		if c.reset {
@@ -324,6 +326,25 @@ func (c *Conn) Close() error {
 	if c.CloseErr != nil {
 		return c.opErr("close", c.CloseErr)
 	}
+	return nil
+}
+
+// CloseWrite shuts down the sending side of this end, as (*net.TCPConn).CloseWrite and
+// (*tls.Conn).CloseWrite do: the peer's reads end with EOF, this end can still read, the
+// connection stays open until Close.
+func (c *Conn) CloseWrite() error {
+	e := in()
+	if e == nil || e != c.e {
+		return nil
+	}
+	e.point("CloseWrite " + c.name)
+	if c.closed {
+		return c.opErr("close", errClosed)
+	}
+	c.shut = true
+	c.peer.peerShut = true
+	e.releaseMerge(&c.peer.closeVC)
+	e.log("closewrite " + c.name)
 	return nil
 }
 
